@@ -5,6 +5,7 @@ equations and the full J Sigma J^T with the reported p_cov, all cross-covariance
 import json
 
 import numpy as np
+import xarray as xr
 
 import calib
 import core
@@ -215,6 +216,35 @@ def run_one(ctx, c, opts, mode, known2, knownw):
     ctx.count(("double" if c.double else "single") + ":nta%d" % len(c.trans_att) + ":" + mode)
 
 
+def second_call_case(ctx, rng, known2, knownw):
+    """the same Dataset object calibrated a second time with OTHER noise variances (the usual refinement: rough variance first, an
+    intensity-dependent one afterwards): the second result's variances have to be the propagation of the second call's inputs"""
+    double = rng.random() < 0.5
+    kind = rng.choice(["array", "float", "dataarray"])
+    c = fibre.make_case(rng, double=double, nx=rng.randint(10, 18), nt=rng.randint(2, 3), n_baths=2, nta=rng.choice([0, 1]), n_match=0,
+                        noise=0.01, var_kind=kind)
+    out1, _ = calib.run_real(c)
+    if isinstance(out1, tuple):
+        ctx.skip("calibration refused")
+        return
+    for name in list(c.var_mats):
+        factor = 0.3 + 1.7 * c.ds[name].values / c.ds[name].values.max()
+        if kind == "float":
+            c.var_mats[name] = np.full_like(c.var_mats[name], float(c.var_mats[name].flat[0]) * 2.5)
+            c.var_args[name + "_var"] = float(c.var_mats[name].flat[0])
+        else:
+            c.var_mats[name] = c.var_mats[name] * factor
+            c.var_args[name + "_var"] = c.var_mats[name] if kind == "array" else \
+                xr.DataArray(c.var_mats[name], dims=("x", "time"), coords={"x": c.ds.x, "time": c.ds.time})
+    out2, _ = calib.run_real(c)
+    if isinstance(out2, tuple):
+        ctx.fail(f"second calibration of the same dataset raised {out2[1]}: {out2[2]}", calib.case_desc(c))
+        return
+    check_result(ctx, c, out2, {}, known2, knownw)
+    ctx.case(sig=["second-call", c.double, kind, len(c.trans_att)], nontrivial=True, sample=dict(mode="second call, other variances", **calib.case_desc(c)))
+    ctx.count("second call on the same dataset with other variances")
+
+
 def knowns():
     k = {e["id"]: e for e in core.load_known("C05") if e["status"] == "known"}
     return k.get("C05-two-splice-covariance"), k.get("C05-tmpw-cross-terms")
@@ -225,9 +255,15 @@ def run(ctx):
     for _ in range(40 if ctx.quick else 400):
         c, opts, mode = gen_result(ctx, ctx.rng)
         run_one(ctx, c, opts, mode, k2, kw)
+    for _ in range(3 if ctx.quick else 20):
+        second_call_case(ctx, ctx.rng, k2, kw)
 
 
 def search(ctx):
+    for _ in range(6):
+        second_call_case(ctx, ctx.rng, *knowns())
+        if ctx.failures:
+            return
     for _ in range(30):
         c, opts, mode = gen_result(ctx, ctx.rng)
         run_one(ctx, c, opts, mode, *knowns())
